@@ -4,3 +4,4 @@ pub mod fam_hash;
 pub mod fam_hll;
 pub mod fam_theta;
 pub mod fam_fi;
+pub mod fam_cm;
